@@ -6,7 +6,7 @@ from checks import C07shared as S
 from checks import S3chunks as S3C
 
 PROPERTY = "C07"
-LEAN_MODULES = ["KafVerif.Props.C07", "KafVerif.Model.KafkaDriver", S3C.LEAN_MODULE]
+LEAN_MODULES = ["KafVerif.Props.C07", "KafVerif.Model.KafkaDriver", S3C.LEAN_MODULE, "KafVerif.Props.C08", "KafVerif.Model.KafkaPitrDriver"]
 OBLIGATIONS = [
     "KafVerif.C07.beDec_beEnc",
     "KafVerif.C07.varint64_roundtrip",
@@ -39,6 +39,9 @@ BUILDS = {
     "iceberg": ("iceberg", "./cmd/verif_c07", ["C07"]),
     "sql": ("sql", "./cmd/verif_c07", ["C07"]),
     "skeleton": ("skeleton", "./cmd/verif_c07", ["C07"]),
+    # the PITR scanner REWRITES batches (truncateRecordBatchToTimestamp): the rewritten segment must decode identically
+    # too, so C07 also runs C08's restore stream (its byte-level monitor re-decodes every rewritten batch)
+    "pitr": ("root", "./cmd/verif_c08", ["C07", "C08"]),
 }
 # lower seam: the iceberg / sql s3Decoder (getObject + decodeSegment) over the chunking / faulting S3 fake
 BUILDS.update(S3C.DEC_BUILDS)
@@ -168,6 +171,14 @@ def shrink(ck, bins, c, fp, mod):
 
 
 def run(ck):
+    _run_c07(ck)
+    if not ck.broken or True:
+        from checks import C08 as _C08
+        ck.log("PITR rewrite stream (shared with C08)")
+        _C08.run(ck)
+
+
+def _run_c07(ck):
     bins = ck.build_all()
     if bins is None:
         return
